@@ -10,12 +10,14 @@ def load(p):
         return json.load(open(p))
     except Exception:
         return None
-rows, n_first, n_now, n_all = [], 0, 0, 0
+rows, n_first, n_now, n_all, n_stale = [], 0, 0, 0, 0
 for name in names:
     meta = load(os.path.join(HERE, 'seeded', name, 'meta.json')) or {}
     first = load(os.path.join(HERE, 'seeded', 'results', name + '.json'))
     later = [load(p) for p in sorted(glob.glob(os.path.join(HERE, 'seeded', 'results', name + '[b-z].json')))]
     later = [l for l in later if l]
+    stale = bool(later) and later[-1].get('patch_applies') is not True      # the patch was written against an older tree (fix commits changed its context since)
+    later = [l for l in later if l.get('patch_applies') is True]
     now = later[-1] if later else first
     if first is None:
         continue
@@ -25,16 +27,19 @@ for name in names:
     status_now = 'not claimed' if note.startswith('NOT CLAIMED') else ok(now)
     pre = note.startswith('[pre-strengthened')
     first_txt = 'missed (predicted)' if pre else ok(first)
-    n_all += 1; n_first += (first.get('caught', False) and not pre); n_now += (status_now == 'caught')
+    n_all += 1; n_first += (first.get('caught', False) and not pre); n_now += status_now.startswith('caught')
     summ = re.sub(r'\s+', ' ', str(meta.get('summary', '')))[:260].replace('|', '/')
     need = re.sub(r'\s+', ' ', str(meta.get('needs_to_manifest', '')))[:200].replace('|', '/')
+    if stale and status_now == 'caught':
+        status_now = 'caught (last evaluated before later fix commits; the patch no longer applies to the current tree)'
+        n_stale += 1
     rows.append('| %s | %s | %s | %s | %s | %s | %s |' % (name, summ, need, 'yes' if valid else 'NO: ' + str(first.get('demo_on_clean'))[:40], first_txt, status_now, note.replace('|', '/')))
 out = ['# Independently seeded changes - catch matrix', '',
        'Each `<ID>-<k>/` holds `patch.diff`, `demo.py` and `meta.json` written by a fresh sub-agent that saw only the property record and a scratch worktree of /repo',
        '(round 2 agents also saw one-line summaries of the earlier seeds of that property, to avoid duplicates), plus the `verification` block added by `tools/seeded.py`:',
        'the demo passes on a clean copy, fails with the patch, the pinned suite is still 224/224 with the patch, and the registered quick check was run against the patched copy',
        '(`PV_REPO_SRC`). "first" = the check as it stood when the seed arrived; "now" = after strengthening (raw outputs in `results/`).', '',
-       '%i seeded changes: %i caught by the first version of the check, %i caught now.' % (n_all, n_first, n_now), '',
+       '%i seeded changes: %i caught by the first version of the check, %i caught now (%i of these were last evaluated on the tree they were written for: fix commits in /repo have since changed the lines they patch).' % (n_all, n_first, n_now, n_stale), '',
        '| seed | change (sub-agent summary) | needs | confirmed (demo clean/patched, suite) | first | now | strengthening / remark |', '|---|---|---|---|---|---|---|'] + rows
 open(os.path.join(HERE, 'seeded', 'RESULTS.md'), 'w').write('\n'.join(out) + '\n')
 print('%i seeds, %i first, %i now' % (n_all, n_first, n_now))
